@@ -48,6 +48,8 @@ def outcome_under(kind, base, options):
         return base
     if kind == 'fail_compile_first' and options == '+SKIP':
         return 'skipped'
+    if kind.startswith('skip_then'):
+        return base         # the doctest switches SKIP off itself, whatever the default was
     if kind.startswith('fail_bad_directive'):
         return base         # the directive itself is read (and rejected) whatever the defaults say
     if options == '+SKIP':
